@@ -96,10 +96,11 @@ type refStats struct {
 	embedded  map[string]int // kind -> number of non-root nodes with encoding < 32 bytes
 	hashed    map[string]int // kind -> number of non-root nodes with encoding >= 32 bytes
 	branchVal int            // branch nodes carrying a value in slot 17
+	nonroot   map[string]int // "<fine kind>/<size>" of NON-ROOT nodes with 28..36 bytes; fine kinds: leaf, ext, branch2, branch3, branchN, branchv (branch with a value)
 }
 
 func newRefStats() *refStats {
-	return &refStats{sizes: map[string]int{}, embedded: map[string]int{}, hashed: map[string]int{}}
+	return &refStats{sizes: map[string]int{}, embedded: map[string]int{}, hashed: map[string]int{}, nonroot: map[string]int{}}
 }
 
 func (s *refStats) note(kind string, enc []byte, root bool) {
@@ -115,6 +116,16 @@ func (s *refStats) note(kind string, enc []byte, root bool) {
 		} else {
 			s.hashed[kind]++
 		}
+	}
+}
+
+// noteFine records the fine-grained kind of a non-root node near the embedding threshold.
+func (s *refStats) noteFine(kind string, enc []byte, root bool) {
+	if s == nil || root {
+		return
+	}
+	if n := len(enc); n >= 28 && n <= 36 {
+		s.nonroot[kind+"/"+itoa(n)]++
 	}
 }
 
@@ -150,6 +161,7 @@ func refNode(items []refKV, d int, st *refStats) []byte {
 	if len(items) == 1 {
 		enc := rlpList(rlpStr(hexPrefix(items[0].nib[d:], true)), rlpStr(items[0].val))
 		st.note("leaf", enc, d == 0)
+		st.noteFine("leaf", enc, d == 0)
 		return enc
 	}
 	// longest common prefix below depth d: of the first and last item, since the list is sorted
@@ -162,6 +174,7 @@ func refNode(items []refKV, d int, st *refStats) []byte {
 		child := refNode(items, d+cp, st)
 		enc := rlpList(rlpStr(hexPrefix(a[d:d+cp], false)), refRef(child))
 		st.note("ext", enc, d == 0)
+		st.noteFine("ext", enc, d == 0)
 		return enc
 	}
 	slots := make([][]byte, 17)
@@ -169,7 +182,9 @@ func refNode(items []refKV, d int, st *refStats) []byte {
 		slots[i] = []byte{0x80}
 	}
 	rest := items
+	nchild, hasVal := 0, false
 	if len(rest[0].nib) == d { // the key that ends here sorts first
+		hasVal = true
 		slots[16] = rlpStr(rest[0].val)
 		rest = rest[1:]
 		if st != nil {
@@ -184,9 +199,20 @@ func refNode(items []refKV, d int, st *refStats) []byte {
 		}
 		slots[n] = refRef(refNode(rest[:j], d+1, st))
 		rest = rest[j:]
+		nchild++
 	}
 	enc := rlpList(slots...)
 	st.note("branch", enc, d == 0)
+	switch {
+	case hasVal:
+		st.noteFine("branchv", enc, d == 0)
+	case nchild == 2:
+		st.noteFine("branch2", enc, d == 0)
+	case nchild == 3:
+		st.noteFine("branch3", enc, d == 0)
+	default:
+		st.noteFine("branchN", enc, d == 0)
+	}
 	return enc
 }
 
